@@ -369,8 +369,14 @@ func mapsEqual(x, y any) (err error) {
 	}
 
 	for _, key := range xrv.MapKeys() {
+		yidx := yrv.MapIndex(key)
+		if !yidx.IsValid() {
+			err = errorf("Map key mismatch")
+			return
+		}
+
 		xval := xrv.MapIndex(key).Interface()
-		yval := yrv.MapIndex(key).Interface()
+		yval := yidx.Interface()
 		if err = valuesEqual(xval, yval); err != nil {
 			return
 		}
